@@ -486,7 +486,10 @@ def dev_run(pattern):
     """development aid: run every registered harness whose name matches the regex."""
     regenerate()
     os.makedirs(LOGS, exist_ok=True)
-    reg = [h for h in load_registry() if re.search(pattern, h["name"])]
+    if pattern == "@thorough":
+        reg = [h for h in load_registry() if h.get("tier", "quick") == "thorough"]
+    else:
+        reg = [h for h in load_registry() if re.search(pattern, h["name"])]
     set_features([h.get("feature") for h in reg])
     jobs = int(os.environ.get("VERIF_JOBS", "0") or 0) or 12
     t0 = time.time()
@@ -521,7 +524,7 @@ def main(argv):
     reg = load_registry()
     def in_quick(h):
         return h.get("tier", "quick") == "quick" and ("quick_for" not in h or pid in h["quick_for"])
-    sel = [h for h in reg if pid in h["props"] and (tier == "thorough" or in_quick(h))]
+    sel = [h for h in reg if pid in h["props"] and h.get("tier", "quick") != "experimental" and (tier == "thorough" or in_quick(h))]
     if not sel:
         log("no harnesses registered for", pid)
         return 2
